@@ -4,10 +4,19 @@
 //! calls, floods of unmatched messages (incl. INVITEs the application abandons unanswered), connections in both directions
 //! with IPv4 / IPv6 / IPv4-mapped addresses that are used, idle, closed by the peer or fed garbage, STUN requests; requests
 //! of the peer optionally carry peer-chosen lifetimes (`Lifetimes`: Expires / Session-Expires / Min-SE, up to 2^32-1 s);
-//! every scenario's application objects may be dropped early.
+//! application-defined dialogs (`Kind::AppDialog`: Dialog + own Usage from a SUBSCRIBE, in-dialog requests incl. one with a
+//! CSeq gap that waits in the dialog's backlog, optionally a MESSAGE that makes the usage panic while it releases waiting
+//! requests; optionally a second dialog whose objects ANOTHER OS THREAD lets go of at the
+//! moment the first dialog's entry is being removed); every scenario's application objects may be dropped early, and the way
+//! the application lets go is a dimension of its own (`Exit`): the owning task is cancelled (objects dropped normally) or it
+//! PANICS (objects dropped while the thread unwinds; tokio confines the panic to that task). `FloodKind::HandlerPanics`:
+//! requests whose handling in the application's layer panics at one of six stages (before / after taking the request, owning
+//! a dialog, an acceptor, a server transaction). These panics are planned: they carry `PLANNED_PANIC` as message and are
+//! filtered from the engine's panic record; every other panic is reported as usual.
 //! Oracle: (quiescence) all seven table sizes are 0 after every handle is dropped and 64*T1 + 32 s + T4 + 64 s passed;
 //! (bound) at every 500 ms sample each table <= a per-scenario cap computed from the case alone (`bound`).
-//! Not asserted: what is on the wire, what the stack does with the peer's lifetime headers, exact table sizes.
+//! Not asserted: what is on the wire, what the stack does with the peer's lifetime headers, exact table sizes, what happens
+//! to a request whose handler panicked (answered or not), which thread's drop completes first.
 
 use crate::engine::*;
 use crate::refmodel::ref_stun::{self, RAddr, RAttr, RClass, RMsg};
@@ -23,13 +32,23 @@ use sip_types::header::typed::Contact;
 use sip_types::uri::sip::SipUri;
 use sip_types::uri::NameAddr;
 use sip_types::{Code, Method, Name};
-use sip_ua::dialog::{Dialog, DialogLayer};
+use sip_ua::dialog::{Dialog, DialogLayer, Usage, UsageGuard};
 use sip_ua::invite::acceptor::Acceptor;
 use sip_ua::invite::initiator::{EarlyResponse, Initiator, Response};
 use sip_ua::invite::InviteLayer;
-use std::collections::HashMap;
+use std::collections::{BTreeSet, HashMap};
 use std::net::SocketAddr;
+use std::sync::mpsc;
 use std::sync::Arc;
+use std::time::Duration;
+
+/// message of every panic this check raises on purpose (an application bug that is part of the generated scenario)
+pub const PLANNED_PANIC: &str = "c16-planned-application-panic";
+
+/// real time the thread that is inside the dialog layer gives the other thread to finish before it carries on. It decides
+/// nothing on a correct stack (there the other thread simply waits for the lock and finishes afterwards: same end state);
+/// it only has to be longer than the few instructions between the other thread's "about to let go" and its attempt.
+const GRACE: Duration = Duration::from_millis(25);
 
 #[derive(Serialize, Deserialize, Clone, Copy, Debug, Hash, PartialEq, Eq)]
 pub enum Reply {
@@ -59,6 +78,41 @@ pub enum FloodKind {
     Retransmissions,
     /// INVITEs the application takes (dialog + acceptor) and gives up on at once without answering
     AbandonedInvites,
+    /// requests (INVITE / MESSAGE) that trip a bug in the application's layer: its `receive` panics at stage k % 6
+    /// (see `AcceptLayer`), owning whatever it had built up to there
+    HandlerPanics,
+}
+
+/// how the application lets go of a scenario's objects (at `drop_at`, else when activity stops)
+#[derive(Serialize, Deserialize, Clone, Copy, Debug, Hash, PartialEq, Eq, Default)]
+pub enum Exit {
+    /// the owning task is cancelled: the objects are dropped normally
+    #[default]
+    Dropped,
+    /// the owning task panics: the objects are dropped while the thread unwinds
+    Panics,
+}
+
+/// in which order the application lets go of a dialog and the guard of the usage it registered on it
+#[derive(Serialize, Deserialize, Clone, Copy, Debug, Hash, PartialEq, Eq, Default)]
+pub enum Order {
+    /// the usage is still registered when the dialog's entry goes away (the entry's usages are dropped with it)
+    #[default]
+    DialogFirst,
+    GuardFirst,
+}
+
+/// what a second OS thread lets go of (objects of a second dialog) while the first dialog's usage is shutting down
+#[derive(Serialize, Deserialize, Clone, Copy, Debug, Hash, PartialEq, Eq)]
+pub enum OtherThread {
+    /// the Dialog (its usage guard follows on the first thread afterwards)
+    Dialog,
+    /// the usage guard only: the application ends its usage and keeps the Dialog until activity stops
+    Guard,
+    DialogThenGuard,
+    GuardThenDialog,
+    /// registers one more usage on its dialog first (needs the dialog layer as well), then lets go of everything
+    RegisterUsage,
 }
 
 /// Lifetime headers the peer puts on its request. They are the peer's choice (any u32), so whatever the stack
@@ -158,6 +212,20 @@ pub enum Kind {
         usage: ConnUse,
     },
     Stun { answered: bool },
+    /// dialog(s) the application runs itself: SUBSCRIBE -> `Dialog::new_server` + 200, an application `Usage` that answers
+    /// in-dialog requests; the peer sends one in-order INFO and (`backlog`) one with a CSeq gap that waits in the backlog
+    AppDialog {
+        backlog: bool,
+        /// the peer also sends the requests CSeq+3 (waits) and then CSeq+2, a MESSAGE, which releases the waiting one(s);
+        /// handling a MESSAGE trips a bug in the application's usage: it panics, owning the request and its transaction,
+        /// while the released requests are still in the dialog layer's hands
+        #[serde(default)]
+        usage_bug: bool,
+        order: Order,
+        /// a second dialog of the same kind; its objects are let go of by another OS thread, started by the `Drop` of the
+        /// first dialog's usage (with `Order::DialogFirst` that is while the first thread is inside the dialog layer)
+        other: Option<OtherThread>,
+    },
 }
 
 fn yes() -> bool {
@@ -170,6 +238,8 @@ pub struct Atom {
     pub kind: Kind,
     /// the application drops every handle of this scenario this long after its start
     pub drop_at: Option<u64>,
+    #[serde(default)]
+    pub exit: Exit,
 }
 
 #[derive(Serialize, Deserialize, Clone, Debug, Hash)]
@@ -205,14 +275,21 @@ fn conn_use_strategy() -> BoxedStrategy<ConnUse> {
     prop_oneof![3 => Just(ConnUse::Requests), 2 => Just(ConnUse::Idle), 2 => Just(ConnUse::PeerCloses), 1 => Just(ConnUse::Garbage)].boxed()
 }
 
-const FLOOD_KINDS: [FloodKind; 6] = [
+const FLOOD_KINDS: [FloodKind; 7] = [
     FloodKind::OrphanResponses,
     FloodKind::StrayAcks,
     FloodKind::UnmatchedCancels,
     FloodKind::UnknownRequests,
     FloodKind::Retransmissions,
     FloodKind::AbandonedInvites,
+    FloodKind::HandlerPanics,
 ];
+
+const OTHER_THREAD: [OtherThread; 5] = [OtherThread::Dialog, OtherThread::Guard, OtherThread::DialogThenGuard, OtherThread::GuardThenDialog, OtherThread::RegisterUsage];
+
+fn other_strategy() -> BoxedStrategy<Option<OtherThread>> {
+    prop_oneof![1 => Just(None), 3 => prop::sample::select(OTHER_THREAD.to_vec()).prop_map(Some)].boxed()
+}
 
 fn kind_strategy() -> BoxedStrategy<Kind> {
     let delay = prop_oneof![Just(1u64), Just(300u64), Just(700u64), Just(5000u64), Just(33_000u64)];
@@ -236,6 +313,8 @@ fn kind_strategy() -> BoxedStrategy<Kind> {
             .prop_map(|(kind, n, life)| Kind::Flood { kind, n, life }),
         3 => (any::<bool>(), fam_strategy(), conn_use_strategy()).prop_map(|(inbound, fam, usage)| Kind::Conn { inbound, fam, usage }),
         2 => any::<bool>().prop_map(|answered| Kind::Stun { answered }),
+        2 => (any::<bool>(), prop::bool::weighted(0.3), prop_oneof![2 => Just(Order::DialogFirst), 1 => Just(Order::GuardFirst)], other_strategy())
+            .prop_map(|(backlog, usage_bug, order, other)| Kind::AppDialog { backlog, usage_bug, order, other }),
     ]
     .boxed()
 }
@@ -247,13 +326,14 @@ pub fn strategy() -> BoxedStrategy<Case> {
                 prop_oneof![Just(0u64), Just(10u64), Just(400u64), Just(3000u64), Just(20_000u64)],
                 kind_strategy(),
                 prop::option::weighted(0.5, prop_oneof![Just(0u64), Just(1u64), Just(250u64), Just(600u64), Just(4000u64), Just(31_000u64), Just(40_000u64)]),
+                prop_oneof![3 => Just(Exit::Dropped), 1 => Just(Exit::Panics)],
             ),
             3..13,
         ),
         any::<u8>(),
     )
         .prop_map(|(atoms, rng)| Case {
-            atoms: atoms.into_iter().map(|(start, kind, drop_at)| Atom { start, kind, drop_at }).collect(),
+            atoms: atoms.into_iter().map(|(start, kind, drop_at, exit)| Atom { start, kind, drop_at, exit }).collect(),
             rng,
         })
         .boxed()
@@ -276,16 +356,16 @@ pub fn flood_cases(_tier: Tier) -> Vec<Case> {
             for (i, comp) in companions.iter().enumerate() {
                 let mut atoms = vec![];
                 if let Some(c) = comp {
-                    atoms.push(Atom { start: 0, kind: *c, drop_at: None });
+                    atoms.push(Atom { start: 0, kind: *c, drop_at: None, exit: Exit::Dropped });
                 }
-                atoms.push(Atom { start: 5, kind: Kind::Flood { kind, n, life: none }, drop_at: None });
+                atoms.push(Atom { start: 5, kind: Kind::Flood { kind, n, life: none }, drop_at: None, exit: Exit::Dropped });
                 out.push(Case { atoms, rng: i as u8 });
             }
         }
     }
-    for kind in [FloodKind::UnknownRequests, FloodKind::UnmatchedCancels, FloodKind::Retransmissions, FloodKind::AbandonedInvites] {
+    for kind in [FloodKind::UnknownRequests, FloodKind::UnmatchedCancels, FloodKind::Retransmissions, FloodKind::AbandonedInvites, FloodKind::HandlerPanics] {
         for (j, life) in enum_lifetimes().into_iter().enumerate().skip(1) {
-            out.push(Case { atoms: vec![Atom { start: 5, kind: Kind::Flood { kind, n: 300, life }, drop_at: None }], rng: j as u8 });
+            out.push(Case { atoms: vec![Atom { start: 5, kind: Kind::Flood { kind, n: 300, life }, drop_at: None, exit: Exit::Dropped }], rng: j as u8 });
         }
     }
     out
@@ -315,7 +395,7 @@ pub fn call_cases(_tier: Tier) -> Vec<Case> {
             for drop_at in [None, Some(0u64), Some(600), Some(40_000)] {
                 for cancel_at in [None, Some(40u64)] {
                     let call = Kind::ServerCall { app, cancel_at, bye_at: None, life };
-                    out.push(Case { atoms: vec![Atom { start: 0, kind: call, drop_at }], rng: out.len() as u8 });
+                    out.push(Case { atoms: vec![Atom { start: 0, kind: call, drop_at, exit: Exit::Dropped }], rng: out.len() as u8 });
                 }
             }
         }
@@ -323,7 +403,7 @@ pub fn call_cases(_tier: Tier) -> Vec<Case> {
     // the same request outside a call
     for life in enum_lifetimes() {
         for copies in [0u8, 2] {
-            out.push(Case { atoms: vec![Atom { start: 0, kind: Kind::ServerRequest { copies, life }, drop_at: None }], rng: out.len() as u8 });
+            out.push(Case { atoms: vec![Atom { start: 0, kind: Kind::ServerRequest { copies, life }, drop_at: None, exit: Exit::Dropped }], rng: out.len() as u8 });
         }
     }
     out
@@ -337,7 +417,74 @@ pub fn conn_cases(_tier: Tier) -> Vec<Case> {
             for usage in [ConnUse::Requests, ConnUse::Idle, ConnUse::PeerCloses, ConnUse::Garbage] {
                 for drop_at in [None, Some(0u64), Some(4000), Some(40_000)] {
                     for start in [0u64, 400] {
-                        out.push(Case { atoms: vec![Atom { start, kind: Kind::Conn { inbound, fam, usage }, drop_at }], rng: out.len() as u8 });
+                        out.push(Case { atoms: vec![Atom { start, kind: Kind::Conn { inbound, fam, usage }, drop_at, exit: Exit::Dropped }], rng: out.len() as u8 });
+                    }
+                }
+            }
+        }
+    }
+    out
+}
+
+/// one scenario of every kind (each on its own and next to a held call) x when the application lets go x HOW: the owning
+/// task panics instead of being cancelled
+pub fn exit_cases(_tier: Tier) -> Vec<Case> {
+    let none = Lifetimes::default();
+    let long = Lifetimes { expires: Some(3600), ..none };
+    let mut kinds = vec![
+        Kind::ClientNonInvite { reply: Reply::Never, delay: 1 },
+        Kind::ClientNonInvite { reply: Reply::Provisional, delay: 300 },
+        Kind::ClientNonInvite { reply: Reply::Ok, delay: 700 },
+        Kind::ClientInvite { reply: Reply::Never, delay: 1 },
+        Kind::ClientInvite { reply: Reply::Provisional, delay: 300 },
+        Kind::ClientInvite { reply: Reply::Ok, delay: 300 },
+        Kind::ClientInvite { reply: Reply::Fail, delay: 700 },
+        Kind::ServerRequest { copies: 2, life: none },
+        Kind::UacCall { ring: true, reply: Reply::Never, contact: true },
+        Kind::UacCall { ring: true, reply: Reply::Ok, contact: true },
+        Kind::UacCall { ring: false, reply: Reply::Ok, contact: false },
+        Kind::UacCall { ring: true, reply: Reply::Fail, contact: true },
+        Kind::Conn { inbound: false, fam: Fam::V4, usage: ConnUse::Requests },
+        Kind::Conn { inbound: false, fam: Fam::V4Mapped, usage: ConnUse::PeerCloses },
+        Kind::Conn { inbound: true, fam: Fam::V6, usage: ConnUse::Requests },
+        Kind::Stun { answered: false },
+        Kind::Stun { answered: true },
+        Kind::Flood { kind: FloodKind::HandlerPanics, n: 100, life: none },
+        Kind::AppDialog { backlog: true, usage_bug: false, order: Order::DialogFirst, other: None },
+        Kind::AppDialog { backlog: true, usage_bug: true, order: Order::GuardFirst, other: Some(OtherThread::Dialog) },
+        Kind::AppDialog { backlog: false, usage_bug: false, order: Order::DialogFirst, other: Some(OtherThread::DialogThenGuard) },
+    ];
+    for app in [CallApp::Accept { ack: true }, CallApp::Accept { ack: false }, CallApp::Reject, CallApp::DropAcceptor, CallApp::Hold] {
+        kinds.push(Kind::ServerCall { app, cancel_at: None, bye_at: None, life: none });
+    }
+    kinds.push(Kind::ServerCall { app: CallApp::Hold, cancel_at: Some(40), bye_at: None, life: long });
+    kinds.push(Kind::ServerCall { app: CallApp::Accept { ack: true }, cancel_at: None, bye_at: Some(2000), life: none });
+    let mut out = vec![];
+    for kind in kinds {
+        for drop_at in [None, Some(0u64), Some(600), Some(4000)] {
+            for with_call in [false, true] {
+                let mut atoms = vec![Atom { start: 0, kind, drop_at, exit: Exit::Panics }];
+                if with_call {
+                    atoms.push(Atom { start: 10, kind: Kind::ServerCall { app: CallApp::Hold, cancel_at: None, bye_at: None, life: none }, drop_at: None, exit: Exit::Dropped });
+                }
+                out.push(Case { atoms, rng: out.len() as u8 });
+            }
+        }
+    }
+    out
+}
+
+/// application-run dialogs: backlog x bug in the usage x order x what the other thread lets go of x when x how the application lets go
+pub fn appdialog_cases(_tier: Tier) -> Vec<Case> {
+    let mut out = vec![];
+    let mut others: Vec<Option<OtherThread>> = vec![None];
+    others.extend(OTHER_THREAD.iter().copied().map(Some));
+    for (backlog, usage_bug) in [(false, false), (true, false), (false, true), (true, true)] {
+        for order in [Order::DialogFirst, Order::GuardFirst] {
+            for other in others.iter().copied() {
+                for drop_at in [None, Some(0u64), Some(4000)] {
+                    for exit in [Exit::Dropped, Exit::Panics] {
+                        out.push(Case { atoms: vec![Atom { start: 0, kind: Kind::AppDialog { backlog, usage_bug, order, other }, drop_at, exit }], rng: out.len() as u8 });
                     }
                 }
             }
@@ -352,6 +499,11 @@ struct AcceptLayer {
     dialog_layer: LayerKey<DialogLayer>,
     invite_layer: LayerKey<InviteLayer>,
     calls: Arc<Mutex<HashMap<String, Acceptor>>>,
+    app_dialogs: Arc<Mutex<HashMap<String, Dialog>>>,
+}
+
+fn planned_panic() -> ! {
+    panic!("{}", PLANNED_PANIC)
 }
 
 #[async_trait::async_trait]
@@ -360,15 +512,59 @@ impl Layer for AcceptLayer {
         "accept"
     }
     async fn receive(&self, endpoint: &Endpoint, request: MayTake<'_, IncomingRequest>) {
-        let keep = request.base_headers.call_id.0.starts_with("call-");
-        let abandon = request.base_headers.call_id.0.starts_with("abandon-");
+        let call_id = request.base_headers.call_id.0.to_string();
+        let contact: SipUri = "sip:ezk@10.0.0.1".parse().unwrap();
+        let contact = Contact::new(NameAddr::uri(contact));
+        if let Some(stage) = call_id.strip_prefix("boom").and_then(|r| r.bytes().next()).map(|b| b.wrapping_sub(b'0')) {
+            // a bug in the application: handling this request panics, owning whatever was built up to `stage`
+            if stage == 0 {
+                // ... the request is still the endpoint's
+                planned_panic();
+            }
+            let mut request = request.take();
+            if stage == 1 {
+                planned_panic();
+            }
+            if request.line.method != Method::INVITE || stage == 4 {
+                // ... owning the request and its server transaction
+                if request.line.method == Method::INVITE {
+                    let _tsx = endpoint.create_server_inv_tsx(&mut request);
+                    planned_panic();
+                }
+                let _tsx = endpoint.create_server_tsx(&mut request);
+                planned_panic();
+            }
+            let Ok(dialog) = Dialog::new_server(endpoint.clone(), self.dialog_layer, &request, contact) else { return };
+            if stage == 2 {
+                planned_panic();
+            }
+            let Ok(mut acceptor) = Acceptor::new(dialog, self.invite_layer, request) else { return };
+            if stage == 3 {
+                planned_panic();
+            }
+            // ... after a 180 went out
+            if let Ok(r) = acceptor.create_response(Code::from(180), None).await {
+                let _ = acceptor.respond_provisional(r).await;
+            }
+            planned_panic();
+        }
+        if call_id.starts_with("dlg-") && request.line.method == Method::SUBSCRIBE {
+            // a dialog the application runs itself
+            let mut request = request.take();
+            let Ok(dialog) = Dialog::new_server(endpoint.clone(), self.dialog_layer, &request, contact) else { return };
+            let Ok(response) = dialog.create_response(&request, Code::OK, None) else { return };
+            let tsx = endpoint.create_server_tsx(&mut request);
+            let _ = tsx.respond(response).await;
+            self.app_dialogs.lock().insert(call_id, dialog);
+            return;
+        }
+        let keep = call_id.starts_with("call-");
+        let abandon = call_id.starts_with("abandon-");
         if request.line.method != Method::INVITE || !(keep || abandon) {
             return;
         }
         let invite = request.take();
-        let call_id = invite.base_headers.call_id.0.to_string();
-        let contact: SipUri = "sip:ezk@10.0.0.1".parse().unwrap();
-        let Ok(dialog) = Dialog::new_server(endpoint.clone(), self.dialog_layer, &invite, Contact::new(NameAddr::uri(contact))) else { return };
+        let Ok(dialog) = Dialog::new_server(endpoint.clone(), self.dialog_layer, &invite, contact) else { return };
         if let Ok(acceptor) = Acceptor::new(dialog, self.invite_layer, invite) {
             if keep {
                 self.calls.lock().insert(call_id, acceptor);
@@ -377,6 +573,144 @@ impl Layer for AcceptLayer {
         }
     }
 }
+
+/// rendezvous between the thread that removes a dialog entry and the thread that lets go of another dialog's objects
+struct Gate {
+    /// (tell the other thread to go, it is about to let go, it is done)
+    ends: Mutex<(mpsc::Sender<()>, mpsc::Receiver<()>, mpsc::Receiver<()>)>,
+}
+
+impl Drop for Gate {
+    fn drop(&mut self) {
+        let ends = self.ends.lock();
+        let _ = ends.0.send(());
+        // (errors at once when the other thread is gone already; the 5 s are a safety net that is never used)
+        if ends.1.recv_timeout(Duration::from_secs(5)).is_ok() {
+            let _ = ends.2.recv_timeout(GRACE);
+        }
+    }
+}
+
+/// the application's own dialog usage: answers every in-dialog request with 200 (a MESSAGE trips a bug: it panics, owning
+/// the request and its transaction); shutting it down (Drop) may take a moment
+struct AppUsage {
+    _gate: Option<Gate>,
+}
+
+#[async_trait::async_trait]
+impl Usage for AppUsage {
+    fn name(&self) -> &'static str {
+        "c16-app-usage"
+    }
+    async fn receive(&self, endpoint: &Endpoint, request: MayTake<'_, IncomingRequest>) {
+        if request.line.method == Method::ACK {
+            return;
+        }
+        let mut request = request.take();
+        if request.line.method == Method::INVITE {
+            let response = endpoint.create_response(&request, Code::from(488), None);
+            let tsx = endpoint.create_server_inv_tsx(&mut request);
+            let _ = tsx.respond_failure(response).await;
+        } else {
+            let response = endpoint.create_response(&request, Code::OK, None);
+            let tsx = endpoint.create_server_tsx(&mut request);
+            if request.line.method == Method::MESSAGE {
+                planned_panic();
+            }
+            let _ = tsx.respond(response).await;
+        }
+    }
+}
+
+struct OtherSide {
+    dialog: Dialog,
+    guard: UsageGuard,
+    what: OtherThread,
+    go: mpsc::Receiver<()>,
+    about: mpsc::Sender<()>,
+    done: mpsc::Sender<()>,
+}
+
+/// everything the application holds of an `AppDialog` scenario; letting go of it (Drop: task cancelled, task unwinding or
+/// scenario over) is where the second thread comes in
+struct Held {
+    first: Option<(Dialog, UsageGuard)>,
+    order: Order,
+    other: Option<OtherSide>,
+    go_fallback: mpsc::Sender<()>,
+    flags: Flags,
+    /// objects the application keeps beyond this scenario, until activity stops
+    kept: Arc<Mutex<Vec<Dialog>>>,
+}
+
+impl Drop for Held {
+    fn drop(&mut self) {
+        let helper = self.other.take().map(|o| {
+            std::thread::spawn(move || {
+                let OtherSide { dialog, guard, what, go, about, done } = o;
+                let _ = go.recv();
+                let _ = about.send(());
+                let rest: (Option<Dialog>, Option<UsageGuard>) = match what {
+                    OtherThread::Dialog => {
+                        drop(dialog);
+                        (None, Some(guard))
+                    }
+                    OtherThread::Guard => {
+                        drop(guard);
+                        (Some(dialog), None)
+                    }
+                    OtherThread::DialogThenGuard => {
+                        drop(dialog);
+                        drop(guard);
+                        (None, None)
+                    }
+                    OtherThread::GuardThenDialog => {
+                        drop(guard);
+                        drop(dialog);
+                        (None, None)
+                    }
+                    OtherThread::RegisterUsage => {
+                        let second = dialog.register_usage(AppUsage { _gate: None });
+                        drop(guard);
+                        drop(dialog);
+                        drop(second);
+                        (None, None)
+                    }
+                };
+                let _ = done.send(());
+                rest
+            })
+        });
+        if let Some((dialog, guard)) = self.first.take() {
+            match self.order {
+                Order::DialogFirst => {
+                    drop(dialog);
+                    drop(guard);
+                }
+                Order::GuardFirst => {
+                    drop(guard);
+                    drop(dialog);
+                }
+            }
+        }
+        // (in case the usage's Drop has not run: the other thread must not wait for ever)
+        let _ = self.go_fallback.send(());
+        if let Some(h) = helper {
+            match h.join() {
+                // a guard the other thread did not let go of follows here, on the first thread; a Dialog stays with the application
+                Ok((dialog, guard)) => {
+                    drop(guard);
+                    self.kept.lock().extend(dialog);
+                }
+                Err(_) => {
+                    self.flags.lock().insert("other-thread-panicked");
+                }
+            }
+        }
+    }
+}
+
+type Flags = Arc<Mutex<BTreeSet<&'static str>>>;
 
 #[derive(Clone, Copy, Debug, Default, PartialEq, Eq, Serialize)]
 pub struct Counts {
@@ -404,6 +738,9 @@ struct Ctx {
     dl: LayerKey<DialogLayer>,
     il: LayerKey<InviteLayer>,
     calls: Arc<Mutex<HashMap<String, Acceptor>>>,
+    app_dialogs: Arc<Mutex<HashMap<String, Dialog>>>,
+    kept: Arc<Mutex<Vec<Dialog>>>,
+    flags: Flags,
     peer: SocketAddr,
 }
 
@@ -448,7 +785,7 @@ fn peer_req(method: &str, branch: &str, call_id: &str, cseq: u32, to_tag: Option
 }
 
 async fn run_atom(ctx: Ctx, i: usize, atom: Atom) {
-    let Ctx { clock, log, endpoint, udp, dl, il, calls, peer } = ctx;
+    let Ctx { clock, log, endpoint, udp, dl, il, calls, app_dialogs, kept, flags, peer } = ctx;
     clock.until(atom.start).await;
     let t0 = atom.start;
     match atom.kind {
@@ -677,6 +1014,13 @@ async fn run_atom(ctx: Ctx, i: usize, atom: Atom) {
                         extra.extend(lh.iter().cloned());
                         peer_req("INVITE", &format!("z9hG4bKabn{i}x{k}"), &format!("abandon-{i}-{k}"), 1, None, &extra)
                     }
+                    FloodKind::HandlerPanics => {
+                        // stage of the application's handler at which it panics: k % 6; every third round a MESSAGE
+                        let mut extra = vec!["Supported: timer".to_string()];
+                        extra.extend(lh.iter().cloned());
+                        let method = if (k / 6) % 3 == 2 { "MESSAGE" } else { "INVITE" };
+                        peer_req(method, &format!("z9hG4bKboom{i}x{k}"), &format!("boom{}-{i}-{k}", k % 6), 1, None, &extra)
+                    }
                 };
                 inject(&endpoint, &udp, peer, &bytes);
                 if k % 64 == 63 {
@@ -686,6 +1030,51 @@ async fn run_atom(ctx: Ctx, i: usize, atom: Atom) {
         }
         Kind::Conn { .. } => {
             // handled by the caller (needs the dialer / factory): see run()
+        }
+        Kind::AppDialog { backlog, usage_bug, order, other } => {
+            let n = if other.is_some() { 2 } else { 1 };
+            let ids: Vec<String> = (0..n).map(|j| format!("dlg-{i}-{j}")).collect();
+            for (j, id) in ids.iter().enumerate() {
+                inject(&endpoint, &udp, peer, &peer_req("SUBSCRIBE", &format!("z9hG4bKdlg{i}x{j}"), id, 1, None, &["Event: presence".to_string(), "Expires: 3600".to_string()]));
+            }
+            settle().await;
+            let mut dialogs = vec![];
+            for id in &ids {
+                match app_dialogs.lock().remove(id) {
+                    Some(d) => dialogs.push(d),
+                    None => return,
+                }
+            }
+            flags.lock().insert("app-dialog:established");
+            let (go_tx, go_rx) = mpsc::channel();
+            let (about_tx, about_rx) = mpsc::channel();
+            let (done_tx, done_rx) = mpsc::channel();
+            let first = dialogs.remove(0);
+            let gate = other.map(|_| Gate { ends: Mutex::new((go_tx.clone(), about_rx, done_rx)) });
+            let first_guard = first.register_usage(AppUsage { _gate: gate });
+            let other_side = dialogs.pop().zip(other).map(|(dialog, what)| {
+                let guard = dialog.register_usage(AppUsage { _gate: None });
+                OtherSide { dialog, guard, what, go: go_rx, about: about_tx, done: done_tx }
+            });
+            let held = Held { first: Some((first, first_guard)), order, other: other_side, go_fallback: go_tx, flags: flags.clone(), kept: kept.clone() };
+            // the peer: an in-order request the usage answers, and one with a CSeq gap that has to wait for the missing ones
+            for (j, id) in ids.iter().enumerate() {
+                let mut from = 0;
+                let ok = call_messages(&log, &mut from, id).into_iter().find(|m| !m.is_request() && m.status() == Some(200));
+                let Some(tag) = ok.and_then(|m| m.to_tag()) else { continue };
+                inject(&endpoint, &udp, peer, &peer_req("INFO", &format!("z9hG4bKdlg{i}x{j}a"), id, 2, Some(&tag), &[]));
+                if backlog {
+                    inject(&endpoint, &udp, peer, &peer_req("INFO", &format!("z9hG4bKdlg{i}x{j}b"), id, 6, Some(&tag), &[]));
+                }
+                if usage_bug {
+                    settle().await;
+                    inject(&endpoint, &udp, peer, &peer_req("INFO", &format!("z9hG4bKdlg{i}x{j}c"), id, 4, Some(&tag), &[]));
+                    settle().await;
+                    inject(&endpoint, &udp, peer, &peer_req("MESSAGE", &format!("z9hG4bKdlg{i}x{j}d"), id, 3, Some(&tag), &[]));
+                }
+            }
+            std::future::pending::<()>().await;
+            drop(held);
         }
         Kind::Stun { answered } => {
             let server: SocketAddr = "198.51.100.3:3478".parse().unwrap();
@@ -721,6 +1110,45 @@ pub struct Observed {
     pub samples: Vec<(u64, Counts)>,
     pub end: Counts,
     pub end_t: u64,
+    /// what the scenarios reached (for the class histogram) / went wrong outside the case's thread
+    pub flags: BTreeSet<&'static str>,
+}
+
+/// a scenario's task: runs until the application lets go (`let_go`), which either cancels it (the caller aborts the task)
+/// or makes it panic right where it is, owning everything the scenario holds at that moment
+async fn scenario(ctx: Ctx, i: usize, atom: Atom, let_go: Arc<tokio::sync::Notify>) {
+    let fut = run_atom(ctx, i, atom);
+    tokio::pin!(fut);
+    tokio::select! {
+        biased;
+        _ = let_go.notified() => planned_panic(),
+        _ = &mut fut => {}
+    }
+}
+
+struct Scn {
+    task: tokio::task::JoinHandle<()>,
+    let_go: Arc<tokio::sync::Notify>,
+    exit: Exit,
+}
+
+impl Scn {
+    fn let_go(self) {
+        match self.exit {
+            Exit::Dropped => self.task.abort(),
+            Exit::Panics => self.let_go.notify_one(),
+        }
+    }
+}
+
+/// the application lets go of a connection handle: dropped, or owned by a task that panics
+fn let_go_handle(h: Option<TpHandle>, exit: Exit) {
+    if let (Some(h), Exit::Panics) = (h, exit) {
+        tokio::spawn(async move {
+            let _owned = h;
+            planned_panic();
+        });
+    }
 }
 
 fn counts(endpoint: &Endpoint, dl: LayerKey<DialogLayer>, il: LayerKey<InviteLayer>) -> Counts {
@@ -737,20 +1165,23 @@ pub fn run(case: &Case) -> Observed {
         let (factory, probe) = mock_factory::<false>(clock, &log);
         let (lb, dialer) = mock_listener::<false>(clock, &log, "10.0.0.1:5060");
         let calls: Arc<Mutex<HashMap<String, Acceptor>>> = Default::default();
+        let app_dialogs: Arc<Mutex<HashMap<String, Dialog>>> = Default::default();
+        let flags: Flags = Default::default();
+        let kept: Arc<Mutex<Vec<Dialog>>> = Default::default();
         let mut b = offline_builder();
         b.add_unmanaged_transport(udp.clone());
         b.add_transport_factory(Arc::new(factory));
         let dl = b.add_layer(DialogLayer::default());
         let il = b.add_layer(InviteLayer::default());
-        b.add_layer(AcceptLayer { dialog_layer: dl, invite_layer: il, calls: calls.clone() });
+        b.add_layer(AcceptLayer { dialog_layer: dl, invite_layer: il, calls: calls.clone(), app_dialogs: app_dialogs.clone() });
         use sip_core::transport::streaming::StreamingListenerBuilder;
         lb.spawn(&mut b, "10.0.0.1:5060").await.unwrap();
         let endpoint = b.build();
         settle().await;
         let peer: SocketAddr = "192.0.2.9:5060".parse().unwrap();
-        let ctx = Ctx { clock, log: log.clone(), endpoint: endpoint.clone(), udp: udp.clone(), dl, il, calls: calls.clone(), peer };
+        let ctx = Ctx { clock, log: log.clone(), endpoint: endpoint.clone(), udp: udp.clone(), dl, il, calls: calls.clone(), app_dialogs: app_dialogs.clone(), kept: kept.clone(), flags: flags.clone(), peer };
 
-        let mut tasks = vec![];
+        let mut tasks: Vec<Option<Scn>> = vec![];
         let mut drops: Vec<(u64, usize)> = vec![];
         let mut conn_handles: HashMap<usize, TpHandle> = HashMap::new();
         let mut peer_conns: HashMap<usize, PeerConn> = HashMap::new();
@@ -759,7 +1190,8 @@ pub fn run(case: &Case) -> Observed {
             if let Some(d) = atom.drop_at {
                 drops.push((atom.start + d, i));
             }
-            tasks.push(Some(tokio::spawn(run_atom(ctx.clone(), i, atom.clone()))));
+            let let_go = Arc::new(tokio::sync::Notify::new());
+            tasks.push(Some(Scn { task: tokio::spawn(scenario(ctx.clone(), i, atom.clone(), let_go.clone())), let_go, exit: atom.exit }));
         }
         let last_start = case.atoms.iter().map(|a| a.start).max().unwrap_or(0);
         let active_until = last_start + 45_000;
@@ -827,10 +1259,10 @@ pub fn run(case: &Case) -> Observed {
             }
             for (dt, i) in &drops {
                 if *dt <= t {
-                    if let Some(task) = tasks[*i].take() {
-                        task.abort();
+                    if let Some(scn) = tasks[*i].take() {
+                        scn.let_go();
                     }
-                    conn_handles.remove(i);
+                    let_go_handle(conn_handles.remove(i), case.atoms[*i].exit);
                 }
             }
             settle().await;
@@ -838,13 +1270,25 @@ pub fn run(case: &Case) -> Observed {
             t += 500;
         }
         // activity stops: the application lets go of everything it still holds
-        for task in tasks.iter_mut() {
-            if let Some(task) = task.take() {
-                task.abort();
+        for scn in tasks.iter_mut() {
+            if let Some(scn) = scn.take() {
+                scn.let_go();
             }
         }
-        conn_handles.clear();
-        calls.lock().clear();
+        let mut left: Vec<(usize, TpHandle)> = conn_handles.drain().collect();
+        left.sort_by_key(|(i, _)| *i);
+        for (i, h) in left {
+            let_go_handle(Some(h), case.atoms[i].exit);
+        }
+        // (objects the accepting layer made for a scenario that was gone before it could pick them up)
+        let unclaimed: Vec<Acceptor> = calls.lock().drain().map(|(_, a)| a).collect();
+        drop(unclaimed);
+        let unclaimed: Vec<Dialog> = app_dialogs.lock().drain().map(|(_, d)| d).collect();
+        drop(unclaimed);
+        settle().await;
+        // (Dialogs the application kept beyond their scenario; the scenarios let go of just now have put theirs there by now)
+        let kept_dialogs: Vec<Dialog> = kept.lock().drain(..).collect();
+        drop(kept_dialogs);
         settle().await;
         // longest protocol timers: 64*T1 (+T2 slack), 32 s connection idle, T4, plus a margin
         clock.advance(TIMEOUT + 4000 + 32_000 + T4 + 60_000).await;
@@ -853,7 +1297,8 @@ pub fn run(case: &Case) -> Observed {
         let end_t = clock.now_ms();
         drop(peer_conns);
         let _ = probe.connects.lock().len();
-        Observed { samples, end, end_t }
+        let flags = flags.lock().clone();
+        Observed { samples, end, end_t, flags }
     })
 }
 
@@ -889,7 +1334,7 @@ fn bound(case: &Case, t: u64) -> Counts {
                 // had a server transaction (generously: for 64*T1 as well) but the application holds nothing of it any more:
                 // no dialog, usage or pending-cancel entry is accounted for, whatever lifetime the peer asked for
                 match kind {
-                    FloodKind::UnknownRequests | FloodKind::UnmatchedCancels | FloodKind::AbandonedInvites => {
+                    FloodKind::UnknownRequests | FloodKind::UnmatchedCancels | FloodKind::AbandonedInvites | FloodKind::HandlerPanics => {
                         if t <= a.start + TIMEOUT + 4000 + 1000 {
                             b.tsx += n as usize
                         }
@@ -903,13 +1348,52 @@ fn bound(case: &Case, t: u64) -> Counts {
                 b.tsx += 2;
             }
             Kind::Stun { .. } => b.stun += 1,
+            Kind::AppDialog { other, .. } => {
+                // per dialog: the SUBSCRIBE, the answered INFO, up to two requests waiting in the backlog, the MESSAGE
+                let n = if other.is_some() { 2 } else { 1 };
+                b.dialogs += n;
+                b.backlog += 2 * n;
+                b.tsx += 5 * n;
+                // usages are the application's objects alone, no protocol timer keeps one: none is left from the second sample
+                // after the application let go of the scenario (even where it keeps a Dialog); until then n (+1: the other
+                // thread may register one more)
+                if a.drop_at.map_or(true, |d| t < a.start + d + 1000) {
+                    b.usages += n + 1;
+                }
+            }
         }
     }
     b
 }
 
 pub fn check(case: &Case, out: &mut CaseOut) {
-    let obs = run(case);
+    // planned application panics (message PLANNED_PANIC) are part of the scenario; every other panic is reported the way the
+    // engine does. The record is taken here so that the engine sees none of the planned ones.
+    let ran = std::panic::catch_unwind(std::panic::AssertUnwindSafe(|| run(case)));
+    let (planned, unplanned): (Vec<_>, Vec<_>) = crate::engine::panic_hook::take().into_iter().partition(|p| p.message == PLANNED_PANIC);
+    let planned = planned.len();
+    // (reported behind the oracle's own failures, where the engine puts the panics it records)
+    let report_panics = |out: &mut CaseOut| {
+        for p in &unplanned {
+            out.fail(format!("panic/{}", p.location), format!("panic: {} at {}", p.message, p.location));
+        }
+    };
+    let obs = match ran {
+        Ok(obs) => obs,
+        Err(_) => {
+            report_panics(out);
+            if unplanned.is_empty() {
+                out.fail("panic/unknown", "panic without hook record");
+            }
+            return;
+        }
+    };
+    if planned > 0 {
+        out.class("planned-application-panic:fired");
+    }
+    for f in &obs.flags {
+        out.class(f);
+    }
     let has_flood = case.atoms.iter().any(|a| matches!(a.kind, Kind::Flood { .. }));
     let mut long_life_unanswered = false;
     let never = case.atoms.iter().any(|a| {
@@ -924,6 +1408,10 @@ pub fn check(case: &Case, out: &mut CaseOut) {
         )
     });
     let early_drop = case.atoms.iter().any(|a| a.drop_at.is_some());
+    // the application lets go by panicking while it certainly still owns something of the scenario
+    let mut panics_owning = false;
+    let mut other_thread = false;
+    let mut waits_in_backlog = false;
     if has_flood {
         out.class("flood");
     }
@@ -934,6 +1422,23 @@ pub fn check(case: &Case, out: &mut CaseOut) {
         out.class("early-drop");
     }
     for a in &case.atoms {
+        if a.exit == Exit::Panics {
+            out.class("exit:panics");
+            let owns = matches!(
+                a.kind,
+                Kind::ClientNonInvite { reply: Reply::Never | Reply::Provisional, .. }
+                    | Kind::ClientInvite { reply: Reply::Never | Reply::Provisional, .. }
+                    | Kind::UacCall { .. }
+                    | Kind::ServerCall { app: CallApp::Accept { .. } | CallApp::Hold, .. }
+                    | Kind::Stun { answered: false }
+                    | Kind::AppDialog { .. }
+                    | Kind::Conn { inbound: false, usage: ConnUse::Requests | ConnUse::PeerCloses | ConnUse::Garbage, .. }
+            );
+            if owns && planned > 0 {
+                out.class("exit:panics-owning-objects");
+                panics_owning = true;
+            }
+        }
         // shapes of the peer-chosen-lifetime and connection dimensions
         match a.kind {
             Kind::ServerCall { life, app, .. } => {
@@ -956,12 +1461,37 @@ pub fn check(case: &Case, out: &mut CaseOut) {
                     FloodKind::UnknownRequests => "flood:unknown-requests",
                     FloodKind::Retransmissions => "flood:retransmissions",
                     FloodKind::AbandonedInvites => "flood:abandoned-invites",
+                    FloodKind::HandlerPanics => "flood:handler-panics",
                 });
                 if life.any() && !matches!(kind, FloodKind::OrphanResponses | FloodKind::StrayAcks) {
                     out.class("flood:peer-lifetime-headers");
                     if kind == FloodKind::AbandonedInvites && [life.expires, life.session_expires, life.min_se].iter().flatten().any(|n| *n >= 400) {
                         long_life_unanswered = true;
                     }
+                }
+            }
+            Kind::AppDialog { backlog, usage_bug, order, other } => {
+                if backlog {
+                    out.class("app-dialog:request-waits-in-backlog");
+                    waits_in_backlog = true;
+                }
+                if usage_bug {
+                    out.class("app-dialog:usage-panics-with-released-backlog");
+                    waits_in_backlog = true;
+                }
+                if let Some(o) = other {
+                    other_thread = true;
+                    out.class(match o {
+                        OtherThread::Dialog => "app-dialog:other-thread/dialog",
+                        OtherThread::Guard => "app-dialog:other-thread/guard",
+                        OtherThread::DialogThenGuard => "app-dialog:other-thread/dialog+guard",
+                        OtherThread::GuardThenDialog => "app-dialog:other-thread/guard+dialog",
+                        OtherThread::RegisterUsage => "app-dialog:other-thread/register-usage",
+                    });
+                    out.class(match order {
+                        Order::DialogFirst => "app-dialog:other-thread-while-entry-is-removed",
+                        Order::GuardFirst => "app-dialog:other-thread-while-usage-is-removed",
+                    });
                 }
             }
             Kind::Conn { inbound, fam, usage } => {
@@ -991,12 +1521,15 @@ pub fn check(case: &Case, out: &mut CaseOut) {
             Kind::Flood { .. } => "flood-scenario",
             Kind::Conn { .. } => "connection",
             Kind::Stun { .. } => "stun",
+            Kind::AppDialog { .. } => "app-dialog",
         });
     }
     // a connection entry the stack has to get rid of on its own account: never used, closed / broken by the peer, or keyed by
     // addresses that have more than one spelling
     let conn_cleanup = case.atoms.iter().any(|a| matches!(a.kind, Kind::Conn { fam, usage, .. } if usage != ConnUse::Requests || fam != Fam::V4));
-    if (early_drop && (has_flood || never)) || (has_flood && case.atoms.len() >= 2) || long_life_unanswered || conn_cleanup {
+    let handler_panics = case.atoms.iter().any(|a| matches!(a.kind, Kind::Flood { kind: FloodKind::HandlerPanics, .. })) && planned > 0;
+    let app_dialog = (other_thread || waits_in_backlog) && obs.flags.contains("app-dialog:established");
+    if (early_drop && (has_flood || never)) || (has_flood && case.atoms.len() >= 2) || long_life_unanswered || conn_cleanup || panics_owning || handler_panics || app_dialog {
         out.nontrivial(case);
     }
     let peak = obs.samples.iter().fold(Counts::default(), |mut p, (_, c)| {
@@ -1009,7 +1542,7 @@ pub fn check(case: &Case, out: &mut CaseOut) {
         p.cancellables = p.cancellables.max(c.cancellables);
         p
     });
-    out.note = Some(format!("peak={peak:?} end={:?} at {} ms", obs.end, obs.end_t));
+    out.note = Some(format!("peak={peak:?} end={:?} at {} ms; planned application panics: {planned}; reached: {:?}", obs.end, obs.end_t, obs.flags));
 
     // (quiescence) nothing is left once activity has stopped and the longest timers have run out
     if !obs.end.is_zero() {
@@ -1062,25 +1595,32 @@ pub fn check(case: &Case, out: &mut CaseOut) {
             break;
         }
     }
+    if obs.flags.contains("other-thread-panicked") {
+        out.fail("panic/other-thread", "the thread that let go of the second dialog's objects panicked");
+    }
+    report_panics(out);
 }
 
 pub fn property() -> Property {
     Property {
         fuzz: vec![],
         id: "C16",
-        rule: "a case = workload of 3..12 overlapping scenarios on ONE endpoint (DialogLayer + InviteLayer + accepting application, datagram transport, connection factory and listener): client non-INVITE / INVITE transactions (peer never answers / provisional only / 200 / 486, after 1 ms .. 33 s), server requests with retransmissions, UAS calls (accept with/without ACK, reject, acceptor dropped, acceptor held; peer CANCEL / BYE), UAC calls through Initiator (ringing, 200 with retransmission, 486, silence), floods of 100..2000 orphan responses / stray ACKs / unmatched CANCELs / unknown requests / retransmissions / INVITEs the application takes and abandons unanswered at once, inbound and outbound connections (both ends IPv4, IPv6 or IPv4-mapped IPv6 as a dual-stack socket reports them; used for requests / handle held, never used, closed by the peer, fed bytes that are not SIP), STUN binding requests (answered or not). Every request the peer originates (call INVITE, MESSAGE, request floods) carries, 6 times out of 10, lifetime headers of the peer's choosing: Expires and/or Session-Expires and/or Min-SE, 0 s .. 2^32-1 s. Every scenario's application objects are optionally dropped 0 ms .. 40 s after its start (task abort). Tables sampled every 500 ms of virtual time and once after everything is dropped and 64*T1 + 32 s + T4 + 64 s have passed. floods sub-check enumerates flood kind x size x companion scenario (+ request floods x lifetime headers); calls enumerates application behaviour x lifetime headers x drop time x CANCEL (+ MESSAGE x lifetime headers); conns enumerates direction x address family x use x drop time x start. Non-trivial = an early drop together with a flood or a never-answering peer, or a flood next to another live scenario, or an unanswered call / abandoned-INVITE flood whose peer-chosen lifetime outlasts the observation, or a connection the stack must clean up by itself (unused, peer-closed, garbage, non-IPv4 spelling); distinct by workload.",
+        rule: "a case = workload of 3..12 overlapping scenarios on ONE endpoint (DialogLayer + InviteLayer + accepting application, datagram transport, connection factory and listener): client non-INVITE / INVITE transactions (peer never answers / provisional only / 200 / 486, after 1 ms .. 33 s), server requests with retransmissions, UAS calls (accept with/without ACK, reject, acceptor dropped, acceptor held; peer CANCEL / BYE), UAC calls through Initiator (ringing, 200 with retransmission, 486, silence), floods of 100..2000 orphan responses / stray ACKs / unmatched CANCELs / unknown requests / retransmissions / INVITEs the application takes and abandons unanswered at once, inbound and outbound connections (both ends IPv4, IPv6 or IPv4-mapped IPv6 as a dual-stack socket reports them; used for requests / handle held, never used, closed by the peer, fed bytes that are not SIP), STUN binding requests (answered or not), dialogs the application runs itself (SUBSCRIBE -> Dialog::new_server + 200 + an application Usage; the peer sends an in-order INFO and optionally one with a CSeq gap that waits in the dialog's backlog, optionally a further waiting one and then the missing MESSAGE whose handling makes the application's usage panic while the released requests are in the dialog layer's hands; optionally a second such dialog whose Dialog / usage guard / both are let go of - or which gets one more usage registered first - by ANOTHER OS THREAD that is started from the Drop of the first dialog's usage, i.e. - when the application drops the Dialog before the usage guard - while the first thread is inside the dialog layer removing the entry), floods of requests whose handling in the application's layer panics (6 stages: request not yet taken, taken, + server transaction, + dialog, + acceptor, + 180 sent). Every request the peer originates (call INVITE, MESSAGE, request floods) carries, 6 times out of 10, lifetime headers of the peer's choosing: Expires and/or Session-Expires and/or Min-SE, 0 s .. 2^32-1 s. Every scenario's application objects are optionally let go of 0 ms .. 40 s after its start, else when activity stops; HOW is generated per scenario: the owning task is cancelled (3 in 4) or it panics where it stands (1 in 4: the objects are dropped while the thread unwinds, tokio confines the panic to the task; for a connection handle: a task that owns it panics). Tables sampled every 500 ms of virtual time and once after everything is dropped and 64*T1 + 32 s + T4 + 64 s have passed. floods sub-check enumerates flood kind x size x companion scenario (+ request floods x lifetime headers); calls enumerates application behaviour x lifetime headers x drop time x CANCEL (+ MESSAGE x lifetime headers); conns enumerates direction x address family x use x drop time x start; exits enumerates 28 scenarios of every kind x drop time x alone / next to a held call, all let go of by a panicking task; appdialogs enumerates backlog x bug in the usage x drop order x what the other thread lets go of x drop time x cancelled / panicking. Non-trivial = a scenario let go of by a panic that really happened while it owned objects, or a handler-panic flood, or an application dialog with a request in its backlog or with a second thread, or an early drop together with a flood or a never-answering peer, or a flood next to another live scenario, or an unanswered call / abandoned-INVITE flood whose peer-chosen lifetime outlasts the observation, or a connection the stack must clean up by itself (unused, peer-closed, garbage, non-IPv4 spelling); distinct by workload.",
         assumptions: vec![
             "table sizes through the read-only hooks H3 (transactions, managed transports, pending STUN, dialogs, backlog, usages, pending-cancel entries)",
             "the bound is a generous per-scenario cap (e.g. 4 transactions per call) plus, for floods of requests the stack answers itself or the application abandons, one transaction per request for 64*T1 (no dialog / usage / pending-cancel entries: the application holds nothing of an abandoned INVITE); it detects growth with the number of unmatched messages, not off-by-one accounting",
             "lifetimes the peer states in Expires / Session-Expires / Min-SE are not among 'the longest protocol timer' the statement waits for (they are unbounded peer input); what the stack does with them (ignore, reject on expiry, ...) is not asserted, only that no table entry outlives the application objects + RFC transaction timers because of them",
             "connection addresses are whatever StreamingTransport::local_addr / peer_addr report; no assertion on which spelling ezk uses on the wire, only that the entry goes away (32 s idle timer, EOF, decode error)",
-            "single-threaded cooperative schedule",
+            "single-threaded cooperative schedule, with ONE exception: the AppDialog scenario's second OS thread. It is started and joined inside the Drop of the scenario's objects and synchronised by a rendezvous (the first thread signals from inside the application usage's Drop, the second answers 'about to let go', lets go, answers 'done'; the first thread waits for 'done' at most 25 ms of REAL time). On a stack that serialises the two threads by its lock the outcome does not depend on that wait (the second thread finishes after the first left the dialog layer; the wait just runs out), so the verdict on a correct stack is timing-independent; the wait only has to outlast the few instructions between 'about to let go' and the second thread's attempt for a stack that does not wait for the lock to be observed",
+            "planned application panics carry the message PLANNED_PANIC and are removed from the panic record by the check itself; every other panic (on the case's thread, or in the second thread: panic/other-thread) is a failure as usual. Whether the request whose handler panicked gets an answer is not asserted",
         ],
-        explanation: "floods, calls and conns sub-checks exhaustive over their products; workloads sampled",
+        explanation: "floods, calls, conns, exits and appdialogs sub-checks exhaustive over their products; workloads sampled",
         subs: vec![
             enum_sub("floods", flood_cases, check),
             enum_sub("calls", call_cases, check),
             enum_sub("conns", conn_cases, check),
+            enum_sub("exits", exit_cases, check),
+            enum_sub("appdialogs", appdialog_cases, check),
             prop_sub("workload", strategy, 600, 20000, check),
         ],
     }
